@@ -140,7 +140,8 @@ class Run:
         except subprocess.TimeoutExpired:
             raise Inconclusive("driver timeout: %s" % args)
         if check and p.returncode != 0:
-            raise Inconclusive("driver failed (%d): %s\n%s" % (p.returncode, args, p.stderr[-4000:]))
+            err = p.stderr if len(p.stderr) <= 9000 else p.stderr[:4500] + "\n...\n" + p.stderr[-4500:]
+            raise Inconclusive("driver failed (%d): %s\n%s" % (p.returncode, args, err))
         return p
 
     # --------------------------------------------------------------------- TLC
@@ -300,8 +301,32 @@ def main(checks):
         rc = run.finish()
     except Inconclusive as e:
         print("INCONCLUSIVE %s: %s" % (a.prop, e), file=sys.stderr)
+        crash = rare_crash(str(e))
+        if crash:
+            # the real code aborted the driver process: whatever the specification demanded of that call was not delivered
+            run.violation("process:crash:%s" % crash[1],
+                          "the code under test aborted the conformance driver: %s in %s\n%s" % crash, {"stderr": str(e)[-6000:]})
+        if run.violations:
+            # disagreements between the real code and the specification established before the trouble stand
+            print("(the check did not complete; the violations found before that point are reported)", file=sys.stderr)
+            sys.exit(run.finish())
         sys.exit(2)
     sys.exit(rc)
+
+
+def rare_crash(msg):
+    """(header, frame, excerpt) if msg holds a Go runtime abort (panic / fatal error) whose first frame that belongs
+    either to the program under test (package path rare/...) or to the harness is the program's, else None. Frames of the
+    Go runtime and the standard library in between are skipped: a panic inside strings.Repeat is its caller's."""
+    m = re.search(r"^(panic: .*|fatal error: .*)$", msg, re.M)
+    if not m:
+        return None
+    for ln in msg[m.end():].splitlines():
+        if ln.startswith(("rare/pkg/", "rare/cmd/", "rare.")) and "(" in ln:
+            return (m.group(1)[:300], ln.split("(")[0][:120], msg[m.start():m.start() + 1500])
+        if ln.startswith(("verifharness/", "main.")):
+            return None
+    return None
 
 
 # ------------------------------------------------------------------ shared helpers for checks
